@@ -21,6 +21,9 @@ OS_FUNCS = ['mkdir', 'rmdir', 'rename', 'replace', 'remove', 'makedirs', 'listdi
 PATH_FUNCS = ['isfile', 'isdir', 'exists', 'getsize', 'islink']
 
 
+_MISSING = object()
+
+
 class Deadlock(Exception):
     pass
 
@@ -221,6 +224,53 @@ def _make_os_proxy():
     return proxy
 
 
+class _YieldingFile:
+    """a file object that gives up control after every read: between reading a chunk and using it another thread may run"""
+
+    def __init__(self, f, name):
+        self._f = f
+        self._name = name
+
+    def _yield(self, what):
+        s = _current[0]
+        if s is not None:
+            s.yield_point('%s:%s' % (what, self._name))
+
+    def read(self, *a):
+        data = self._f.read(*a)
+        self._yield('read')
+        return data
+
+    def readinto(self, b):
+        n = self._f.readinto(b)
+        self._yield('readinto')
+        return n
+
+    def __enter__(self):
+        self._f.__enter__()
+        return self
+
+    def __exit__(self, *a):
+        return self._f.__exit__(*a)
+
+    def __iter__(self):
+        return iter(self._f)
+
+    def __getattr__(self, k):
+        return getattr(self._f, k)
+
+
+def _yielding_open(file, mode='r', *a, **k):
+    f = open(file, mode, *a, **k)
+    if 'r' in mode and _current[0] is not None:
+        return _YieldingFile(f, str(file))
+    return f
+
+
+# modules whose own reads of file contents (hashing) are interleaved: the bytes read must not be shared between threads
+_OPEN_MODS = ['file_builder.simple_operation_executor']
+
+
 class Installed:
     """context manager: route the library's locks and file-system calls through the scheduler"""
 
@@ -239,13 +289,19 @@ class Installed:
             if hasattr(mod, 'os'):
                 self.saved.append((mod, 'os', mod.os))
                 mod.os = osp
+            if m in _OPEN_MODS:
+                self.saved.append((mod, 'open', mod.__dict__.get('open', _MISSING)))
+                mod.open = _yielding_open
         _current[0] = self.sched
         return self
 
     def __exit__(self, *a):
         _current[0] = None
         for mod, name, val in self.saved:
-            setattr(mod, name, val)
+            if val is _MISSING:
+                delattr(mod, name)
+            else:
+                setattr(mod, name, val)
 
 
 def explore(run_one, bound, max_schedules=None, rng=None):
